@@ -67,7 +67,7 @@ stun_instances = rt_instances() + [
     MI('mi', 2, sym=1), MI('fp', 0, sym=1),
     MI('mi', 1), MI('mi_fp', 2), MI('prio_mi', 1), MI('user_mi', 1), MI('xaddr_mi', 1), MI('unk_mi', 1), MI('mi_prio', 1), MI('mi_mi', 1), MI('fp', 1), MI('mi_fp', 0),
     MI('mi', 0, sym=1, tiers=T), MI('fp', 1, sym=1, tiers=T), MI('mi', 8, sym=1, tiers=T), MI('mi_fp', 2, sym=1, tiers=T), MI('prio_mi', 3, sym=1, tiers=T), MI('xaddr_mi', 2, sym=1, tiers=T),
-    ANY('h_dec_any', 'safe_any20', 20, 1, QT, 1), ANY('h_dec_any', 'safe_any24', 24, 1, QT, 2), ANY('h_dec_any', 'safe_any28', 28, 1, T, 3, timeout_s=2400, mem_gb=14, object_bits=12),
+    ANY('h_dec_any', 'safe_any20', 20, 1, QT, 1), ANY('h_dec_any', 'safe_any24', 24, 1, QT, 2), ANY('h_dec_any', 'safe_any28', 28, 1, T, 2, timeout_s=2400, mem_gb=14, object_bits=12),
     S('dec_short', 'h_dec_short', cap=40, dec=1, object_bits=12, bound='datagrams of every size 0..19, arbitrary bytes'),
     S('dec_badlen', 'h_dec_badlen', (28, 0, 0, 0), cap=40, dec=1, bound='28-byte datagram: arbitrary header whose length field is not 8, followed by a well-formed PRIORITY attribute'),
     S('peek20', 'h_peek', (20, 0, 0, 0), cap=40, bound='20 arbitrary bytes, valid length field'),
@@ -85,8 +85,8 @@ def HM(k, md5, tiers):
 util_instances = [
 
     U('crc_table', 'h_crc_table', unwind=10, bound='all 256 table entries (symbolic index)'),
-    U('crc_bytes4', 'h_crc_bytes', (4, 0, 0, 0), cap=40, unwind=10, tiers=Q, solver='cadical', bound='all byte strings of length 0..4'),
-    U('crc_bytes6', 'h_crc_bytes', (6, 0, 0, 0), cap=40, unwind=10, tiers=T, solver='cadical', timeout_s=900, bound='all byte strings of length 0..6'),
+    U('crc_bytes6', 'h_crc_bytes', (6, 0, 0, 0), cap=40, unwind=12, tiers=QT, solver='cadical', bound='all byte strings of length 0..6'),
+    U('crc_bytes8', 'h_crc_bytes', (8, 0, 0, 0), cap=40, unwind=12, tiers=T, solver='cadical', timeout_s=1800, bound='all byte strings of length 0..8'),
 ] + [HM(k, 0, QT) for k in (0, 1, 63, 64, 65, 70)] + [HM(k, 1, QT) for k in (16, 64, 65)] + [HM(k, 0, T) for k in (2, 20, 32, 62, 66, 67, 100, 128, 300)] + [HM(k, 1, T) for k in (0, 63, 66, 128)
 ]
 
@@ -106,7 +106,7 @@ SPEC = dict(
         'acceptance: datagrams of 44..72 bytes with a fixed attribute layout ([MI], [MI,FP], [X,MI] for X in PRIORITY/USERNAME/XOR-MAPPED/unknown, [MI,PRIORITY], [MI,MI], [FP]); '
         'header, payload and the length field of the last attribute symbolic; key 1..2 (thorough: 8) symbolic bytes or empty',
         'safety: arbitrary datagrams of 20 and 24 bytes (thorough: 28) with a valid header length field, every size 0..19, one wrong length field; peekType on 20/28 bytes',
-        'CRC-32: all 256 table entries; all byte strings of length <= 4 (thorough: 6)',
+        'CRC-32: all 256 table entries; all byte strings of length <= 6 (thorough: 8)',
         'HMAC: key lengths 0, 1, 63, 64, 65, 70 (SHA-1) and 16, 64, 65 (MD5) in quick; 2, 20, 32, 62, 66, 67, 100, 128, 300 more in thorough; key and text bytes symbolic, text 0..4 bytes',
     ],
     assumptions=[
